@@ -236,13 +236,15 @@ pub fn binding<S: MlDsa>(seed: u64, nbase: usize, out: &mut Out) {
     for b in 0..nbase {
         let mode = MODES[b % 4];
         let ctx = p.bytes([5usize, 0, 31, 254, 255, 1][b % 6]);
-        let m = p.bytes([7usize, 600, 0, 3, 200, 300][b % 6]);
+        // pure-mode bases carry long messages so that splits needing a 256+ byte context (wrapped length byte) exist
+        let m = p.bytes(if mode == "pure" { [300usize, 600, 777][(b / 4) % 3] } else { [7usize, 600, 0, 3, 200, 300][b % 6] });
         let sig = w.sign(hs, &m, &ctx, mode, &p.arr32(), Fault::None).unwrap_or_default();
         let _ = w.verify(hp, &m, &ctx, mode, &sig);
         // every re-split of ctx || M (context at most 255 bytes), and splits that would need an over-long
         // context whose length byte wraps (256, 257, 512 bytes)
         let cat: Vec<u8> = [ctx.clone(), m.clone()].concat();
-        for cut in (0..=cat.len().min(255)).chain([256usize, 257, 300, 512].into_iter().filter(|c| *c <= cat.len())) {
+        let wrapped = [256usize, 257, 300, 512, ctx.len() + 256, ctx.len() + 512];
+        for cut in (0..=cat.len().min(255)).chain(wrapped.into_iter().filter(|c| *c <= cat.len())) {
             if cut == ctx.len() { continue; }
             let _ = w.verify(hp, &cat[cut..], &cat[..cut], mode, &sig);
         }
